@@ -316,9 +316,13 @@ func (x *concExec) spawn(who string, lb *LinkBuffer, spec concReader, base int) 
 
 // runConcOnce performs one execution of the case on real goroutines.
 func runConcOnce(c concCase, record bool) (prop, sig, msg string, goroutines int) {
-	saved := LinkBufferCap
-	LinkBufferCap = c.Cap
-	defer func() { LinkBufferCap = saved }()
+	if record {
+		// the node capacity is a global: it is only changed in the E1 processes, where nothing else runs
+		// (under the race detector, C19, pollers of earlier workloads may still be reading it)
+		saved := LinkBufferCap
+		LinkBufferCap = c.Cap
+		defer func() { LinkBufferCap = saved }()
+	}
 	if record {
 		mcache.SetRecording(true)
 		defer mcache.SetRecording(false)
@@ -508,6 +512,9 @@ func genConcReader(t *rapid.T, capv, depth int) concReader {
 // about the same time.
 func genConcStripe(t *rapid.T, prop string) concCase {
 	c := concCase{Prop: prop, Conc: "slices", Cap: rapid.SampledFrom([]int{8, 64, 512}).Draw(t, "cap")}
+	if prop == "C19" {
+		c.Cap = LinkBufferCap
+	}
 	m := rapid.IntRange(8, 120).Draw(t, "blocks")
 	ng := rapid.IntRange(2, 3).Draw(t, "groups")
 	wk := rapid.SampledFrom([]string{"malloc", "malloc", "bin"}).Draw(t, "wkind")
@@ -537,6 +544,9 @@ func genConcCase(t *rapid.T, prop string) concCase {
 		return genConcStripe(t, prop)
 	}
 	c := concCase{Prop: prop, Conc: "slices", Cap: rapid.SampledFrom(e1Caps).Draw(t, "cap")}
+	if prop == "C19" {
+		c.Cap = LinkBufferCap
+	}
 	for i, n := 0, rapid.IntRange(1, 6).Draw(t, "nwrites"); i < n; i++ {
 		k := rapid.SampledFrom([]string{"malloc", "malloc", "bin", "binbig", "str", "byte"}).Draw(t, "wkind")
 		sz := genConcSize(t, c.Cap, "wn")
